@@ -156,7 +156,13 @@ def safe_callable_names(root: ast.Module) -> Collection[str]:
     """
     defined_names = {node.id for node in core.walk(root, ast.Name(ctx=ast.Store))}
     function_defs = list(core.walk(root, (ast.FunctionDef, ast.AsyncFunctionDef)))
-    safe_callables = set(constants.SAFE_CALLABLES)
+    # A builtin that the module redefines (def format, class filter, import sorted) is not the builtin anymore
+    redefined_names = (
+        defined_names
+        | {node.name for node in core.walk(root, (ast.FunctionDef, ast.AsyncFunctionDef, ast.ClassDef))}
+        | {(alias.asname or alias.name).split(".")[0] for alias in core.walk(root, ast.alias)}
+    )
+    safe_callables = set(constants.SAFE_CALLABLES) - redefined_names
     safe_callable_nodes = set()
     changes = True
     while changes:
